@@ -99,6 +99,18 @@ def classScope (st : Struct) : List Decl :=
        else [])) ++
   st.nestedEnums.map (fun e => { ident := e, what := "using <enum>" })
 
+/-- Unqualified references to `namespace <Struct>` from inside the view class: the constant
+virtual fields' `Read()` is defined as `return <Struct>::<field>();` (template
+`structure_single_const_virtual_field_method_definitions`), looked up from inside
+`Generic<Struct>View<Storage>::<VirtualView>`, where the template parameter `Storage` and the
+nested class's `using ValueType = …;` are found first. -/
+def referenceScope (st : Struct) : List Decl :=
+  if st.fields.any (fun f => f.ownView && f.constant) then
+    [{ ident := st.name, what := "own namespace reference" },
+     { ident := s "Storage", what := "captures reference" },
+     { ident := s "ValueType", what := "captures reference" }]
+  else []
+
 /-- The `EmbossReserved…` type names a structure's fields give rise to: nested view classes
 of the non-alias virtual fields, validator structs of the fields with `[requires]`. -/
 def reservedNames (fs : List Field) : List Name :=
